@@ -8,6 +8,7 @@ interleaving of any number of goroutines" is "any sequence".
 -/
 import ConfModel.Lemmas.Handoff
 import ConfModel.Lemmas.HandoffGlue
+import ConfModel.Lemmas.HandoffRetry
 namespace ConfModel.Props.C16
 open ConfModel ConfModel.Handoff
 
@@ -556,5 +557,78 @@ example : trailerSpec ["X-T"] [(.plain "X-T", ["a"]), (.pre "X-T", ["b"]), (.pre
     trailerSpec ["X-T"] [(.plain "X-T", ["a"]), (.pre "X-P", ["p"]), (.plain "X-Q", ["q"])] "X-Q" = none := by decide
 
 end handler
+
+/-! ### exactly-once completion on an HTTP/2 connection, for every Collector
+(`http2RetryCollector` between the per-stream builders of `tracingHTTP2Conn` and the real
+collector; `cancel` runs from `cancelAll` on every failed Read, failed Write and on Close) -/
+section retry
+open H2 H2Teardown
+
+/-- For EVERY sequence of calls on the retry collector — traces held back (`Complete` with a
+retryable error), retries (`newAttempt`), timers (`timesUp`), tear-downs (`cancel`), in any order
+and multiplicity — a trace reaches the downstream collector at most as often as it was completed
+upstream: an operation whose builder completes once (builder_once) is delivered at most once,
+whatever the collector downstream is. -/
+theorem retry_at_most_once (ops : List COp) (t : Trace) :
+    (Coll.init.run ops).out.count t ≤ completions t ops := by
+  have := count_run ops Coll.init t
+  simp only [Coll.init, List.count_nil, valuesCount, List.map_nil] at this ⊢
+  omega
+
+/-- … in particular through every script of a traced connection (`lowerAll`: the calls the
+connection makes on its retry collector for streams opened, ended, refused, reset, cut off by
+GOAWAY, and for any sequence of failed reads, failed writes and closes) -/
+theorem conn_at_most_once (steps : List Step) (t : Trace) :
+    (deliveries steps).count t ≤ completions t (lowerAll Conn.init steps) :=
+  retry_at_most_once _ t
+
+/-- `cancel` is idempotent: a second tear-down (the read loop failed, then the owner closes the
+connection) delivers nothing again … -/
+theorem retry_cancel_idempotent (c : Coll) : c.cancel.cancel = c.cancel := cancel_cancel c
+
+/-- … nor does any further number of them. -/
+theorem retry_cancel_any_multiplicity (c : Coll) (k : Nat) :
+    (c.run (COp.cancel :: List.replicate k COp.cancel)) = c.cancel := by
+  show (c.step .cancel).run _ = _
+  exact run_cancels c k
+
+/-- Exactly once: a trace that is held back when the connection is torn down is delivered by
+the first `cancel` and — whatever follows: more tear-downs, timers, retries, other completions,
+anything but a second completion of that very trace upstream — stays delivered exactly once. -/
+theorem retry_teardown_exactly_once (c : Coll) (hc : WOK c.waiting) (t : Trace)
+    (hheld : findName t.name c.waiting = some t) (hfresh : c.out.count t = 0)
+    (rest : List COp) (hrest : completions t rest = 0) :
+    (c.run (COp.cancel :: rest)).out.count t = 1 := by
+  have h1 : c.cancel.out.count t = 1 := by
+    have := valuesCount_held t c.waiting hc hheld
+    simp only [Coll.cancel, List.count_append, hfresh, valuesCount] at this ⊢
+    omega
+  have hup := count_run rest c.cancel t
+  have hlo := out_count_mono_run rest c.cancel t
+  have hv : valuesCount t c.cancel.waiting = 0 := by simp [Coll.cancel, valuesCount]
+  show ((c.step .cancel).run rest).out.count t = 1
+  have e : c.step .cancel = c.cancel := rfl
+  rw [e]
+  omega
+
+/-- non-vacuity: stream 1 of test `a` is refused and never retried; the read loop fails, a write
+fails, the owner closes the connection twice — one delivery -/
+example :
+    let t := mkTrace "a" 1 (.stream 1 7)
+    let c := Coll.init.run [.newAttempt "a", .complete t]
+    WOK c.waiting ∧ findName t.name c.waiting = some t ∧ c.out.count t = 0 ∧
+    (deliveries [.opn 1 "a", .rst 1 7 false, .teardown, .teardown, .teardown, .teardown]) = [t] := by
+  refine ⟨?_, by decide, by decide, by decide⟩
+  exact WOK_run _ Coll.init trivial
+
+/-- refused and retried: the refused attempt is dropped for good, the retry is delivered once;
+GOAWAY(NO_ERROR) holds back the streams above its limit until the tear-down -/
+example :
+    (deliveries [.opn 1 "a", .rst 1 7 false, .opn 3 "a", .respEnd 3, .teardown, .teardown]).map (·.req) =
+      [[("id", "3")]] ∧
+    (deliveries [.opn 1 "a", .opn 3 "b", .goaway 1 0, .teardown, .teardown, .timers]).map (·.req) =
+      [[("id", "1")], [("id", "3")]] := by decide
+
+end retry
 
 end ConfModel.Props.C16
